@@ -1,2 +1,540 @@
-(* CloneSerdeProofs.v — being written *)
+(* CloneSerdeProofs.v — cloning (try_clone / try_clone_from) and the list-shaped
+   deserialisers (Rodeo / RodeoReader / RodeoResolver), for ALL inputs. *)
 From Lasso Require Import Base Arena ArenaProofs Rodeo RodeoInv RodeoProofs.
+
+(* the implicit-argument declarations of Rodeo.v do not survive its section *)
+#[local] Arguments DOk {A} a.
+#[local] Arguments DErr {A}.
+#[local] Arguments DPanic {A}.
+
+(* ---------- list helpers ---------- *)
+
+Lemma last_opt_app_single {A} (l : list A) x : last_opt (l ++ [x]) = Some x.
+Proof.
+  induction l as [|y l IH]; [reflexivity|].
+  change ((y :: l) ++ [x]) with (y :: (l ++ [x])).
+  destruct (l ++ [x]) as [|z t] eqn:E; [destruct l; discriminate|].
+  exact IH.
+Qed.
+
+Lemma sum_N_cons x l : sum_N (x :: l) = x + sum_N l.
+Proof. reflexivity. Qed.
+
+(* ---------- 1. a string that fits in the last block is bumped into it ---------- *)
+
+(* the last block after the bump copy *)
+Definition bump (b : block) (s : str) : block :=
+  mkBlock (bid b) (bcap b) (bused b + slen s) (bwrite (bdata b) (N.to_nat (bused b)) s).
+
+Lemma vec_store_nil a : vec_store a [] = (a, Ok REmpty).
+Proof. reflexivity. Qed.
+
+(* the exact result (no invariant needed) *)
+Lemma vec_store_fits_eq a b s :
+  last_opt (blocks a) = Some b -> s <> [] -> slen s <= bcap b - bused b ->
+  vec_store a s =
+  (mkArena (set_last (bump b s) (blocks a)) (bucket_cap a) (usage a) (limit a) (next_bid a),
+   Ok (RArena (bid b) (bused b) (slen s))).
+Proof.
+  intros Hl Hs Hfit. unfold vec_store, vec_store_gen.
+  destruct s as [|c s0]; [congruence|].
+  rewrite Hl. apply N.leb_le in Hfit. rewrite Hfit. reflexivity.
+Qed.
+
+(* the statement asked for: same block list except that the last block is bumped *)
+Lemma vec_store_fits a b s :
+  ArenaInv a -> last_opt (blocks a) = Some b -> s <> [] -> slen s <= bcap b - bused b ->
+  exists a' ref l1,
+    vec_store a s = (a', Ok ref) /\
+    ref = RArena (bid b) (bused b) (slen s) /\
+    blocks a = l1 ++ [b] /\ blocks a' = l1 ++ [bump b s] /\
+    last_opt (blocks a') = Some (bump b s) /\
+    bcap (bump b s) = bcap b /\ bused (bump b s) = bused b + slen s /\
+    usage a' = usage a /\ limit a' = limit a /\ bucket_cap a' = bucket_cap a /\
+    next_bid a' = next_bid a /\
+    length (blocks a') = length (blocks a) /\
+    store_post a a' s (Ok ref).
+Proof.
+  intros Hinv Hl Hs Hfit.
+  destruct (last_opt_split _ _ Hl) as (l1 & H1 & H2).
+  pose proof (vec_store_fits_eq _ _ _ Hl Hs Hfit) as Heq.
+  pose proof (vec_store_post _ _ _ _ Hinv Heq) as Hpost.
+  rewrite H2 in Heq, Hpost.
+  eexists _, _, l1. split; [exact Heq|]. cbn [blocks usage limit bucket_cap next_bid].
+  rewrite last_opt_app_single.
+  split; [reflexivity|]. split; [exact H1|]. split; [reflexivity|]. split; [reflexivity|].
+  split; [reflexivity|]. split; [reflexivity|]. split; [reflexivity|]. split; [reflexivity|].
+  split; [reflexivity|]. split; [reflexivity|]. split.
+  - rewrite H1, !app_length. reflexivity.
+  - exact Hpost.
+Qed.
+
+(* the form used by the loops below: empty strings included, only what the loops need *)
+Lemma vec_store_room a b s :
+  last_opt (blocks a) = Some b -> slen s <= bcap b - bused b ->
+  exists a' ref b',
+    vec_store a s = (a', Ok ref) /\ last_opt (blocks a') = Some b' /\
+    bcap b' = bcap b /\ bused b' = bused b + slen s /\
+    usage a' = usage a /\ limit a' = limit a /\ bucket_cap a' = bucket_cap a /\
+    length (blocks a') = length (blocks a).
+Proof.
+  intros Hl Hfit. destruct s as [|c s0].
+  - exists a, REmpty, b. rewrite slen_nil.
+    split; [reflexivity|]. split; [exact Hl|]. split; [reflexivity|]. split; [lia|].
+    repeat split; reflexivity.
+  - set (s := c :: s0) in *. assert (Hs : s <> []) by discriminate.
+    rewrite (vec_store_fits_eq _ _ _ Hl Hs Hfit).
+    destruct (last_opt_split _ _ Hl) as (l1 & H1 & H2).
+    eexists _, _, (bump b s). split; [reflexivity|].
+    cbn [blocks usage limit bucket_cap next_bid]. rewrite H2, last_opt_app_single.
+    split; [reflexivity|]. split; [reflexivity|]. split; [reflexivity|].
+    split; [reflexivity|]. split; [reflexivity|]. split; [reflexivity|].
+    rewrite H1, !app_length. reflexivity.
+Qed.
+
+Definition nonstatic (r : sref) : Prop :=
+  match r with RStatic _ _ => False | _ => True end.
+
+Lemma vec_store_nonstatic a s a' ref :
+  ArenaInv a -> vec_store a s = (a', Ok ref) -> nonstatic ref.
+Proof.
+  intros Hinv Hst. pose proof (vec_store_post _ _ _ _ Hinv Hst) as Hpost.
+  destruct (sp_result _ _ _ _ Hpost) as (_ & _ & _ & He & Hne).
+  destruct s as [|c s0].
+  - destruct (He eq_refl) as (-> & _). exact I.
+  - destruct Hne as (b & o & ->); [discriminate|]. exact I.
+Qed.
+
+Section Proofs.
+  Variable hash : str -> N.
+  Variable cand : N -> N -> bool.
+  Variable growf : N -> bool.
+  Variable keycap : N.
+  Hypothesis cand_refl : forall h, cand h h = true.
+
+  Notation RodeoInv := (RodeoInv hash keycap).
+  Notation table_ok := (table_ok hash).
+  Notation tlookup := (tlookup cand).
+  Notation tinsert := (tinsert hash growf).
+  Notation clone_into := (clone_into hash cand growf keycap).
+  Notation r_clone := (r_clone hash cand growf keycap).
+  Notation r_clone_from := (r_clone_from hash cand growf keycap).
+  Notation de_list_loop := (de_list_loop hash cand growf keycap).
+  Notation de_rodeo := (de_rodeo hash cand growf keycap).
+  Notation de_rodeo_legacy := (de_rodeo_legacy hash cand growf keycap).
+
+  (* ---------- 2. clone_strings_into ---------- *)
+
+  (* the lookup of clone_strings_into: the string table already holds the new string, the
+     map does not know it yet, and the string is new: nothing is found *)
+  Lemma tlookup_fresh t strs' a' cs s h :
+    table_ok t cs -> contents strs' a' = Some (cs ++ [s]) -> ~ In s cs ->
+    tlookup t strs' a' h s = None.
+  Proof.
+    intros (_ & Hfiled & _) Hc Hni. unfold Rodeo.tlookup.
+    match goal with |- match find ?P t with _ => _ end = _ => set (p := P) end.
+    destruct (find p t) as [(h0 & k)|] eqn:Hf; [|reflexivity].
+    exfalso. apply find_some in Hf as (Hin & Hp). unfold p in Hp. cbn [fst snd] in Hp.
+    apply andb_true_iff in Hp as (_ & Hp).
+    rewrite (key_str_contents _ _ _ _ Hc) in Hp.
+    destruct (Hfiled _ _ Hin) as (s0 & Hs0 & _).
+    rewrite nth_error_app1 in Hp by (apply nth_error_Some; congruence).
+    rewrite Hs0 in Hp. apply str_eqb_eq in Hp. subst s0.
+    apply Hni. eapply nth_error_In; eauto.
+  Qed.
+
+  Lemma NoDup_app_cons_notin {A} (l1 : list A) x l2 : NoDup (l1 ++ x :: l2) -> ~ In x l1.
+  Proof.
+    intros H Hin. apply NoDup_remove_2 in H. apply H. apply in_or_app. now left.
+  Qed.
+
+  Lemma app_cons_snoc {A} (l1 : list A) x l2 : l1 ++ x :: l2 = (l1 ++ [x]) ++ l2.
+  Proof. rewrite <- app_assoc. reflexivity. Qed.
+
+  Lemma length_snoc_N {A} (l : list A) x : N.of_nat (length (l ++ [x])) = N.of_nat (length l) + 1.
+  Proof. rewrite app_length. simpl length. lia. Qed.
+
+  (* one successful step: the pushed string with its key inserted *)
+  Lemma push_step_inv r cs s a' ref :
+    RodeoInv r cs -> store_post (rar r) a' s (Ok ref) -> ~ In s cs ->
+    N.of_nat (length cs) < keycap ->
+    RodeoInv (mkRodeo (tinsert (rmap r) (rstrs r ++ [ref]) a' (hash s) (N.of_nat (length cs)))
+                      (rstrs r ++ [ref]) a') (cs ++ [s]).
+  Proof.
+    intros (Ha & Hs & Ht & Hk) Hpost Hni Hlt.
+    pose proof (strs_ok_push _ _ _ _ _ _ Hs Hpost Hni) as Hs'.
+    split; [exact (sp_inv _ _ _ _ Hpost)|]. cbn [rmap rstrs rar].
+    split; [exact Hs'|]. split.
+    - destruct Hs' as (_ & _ & Hc' & _). eapply tinsert_ok; eauto.
+    - rewrite length_snoc_N. lia.
+  Qed.
+
+  Theorem clone_into_spec src : forall dst cs0 r' c,
+    RodeoInv dst cs0 -> NoDup (cs0 ++ src) -> N.of_nat (length (cs0 ++ src)) <= keycap ->
+    clone_into src (N.of_nat (length cs0)) dst = (r', c) ->
+    limit (rar r') = limit (rar dst) /\
+    ((c = COk /\ RodeoInv r' (cs0 ++ src)) \/
+     (c = CErr MemoryLimitReached /\
+      exists done rest, src = done ++ rest /\ rest <> [] /\ RodeoInv r' (cs0 ++ done))).
+  Proof.
+    induction src as [|s rest IH]; intros dst cs0 r' c Hinv Hnd Hcap Hc.
+    - cbn [Rodeo.clone_into] in Hc. inversion Hc; subst r' c. split; [reflexivity|].
+      left. rewrite app_nil_r. auto.
+    - cbn [Rodeo.clone_into] in Hc.
+      pose proof (NoDup_app_cons_notin _ _ _ Hnd) as Hni.
+      assert (Hlt : N.of_nat (length cs0) < keycap).
+      { rewrite app_length in Hcap. simpl length in Hcap. lia. }
+      pose proof Hinv as (Ha & Hs & Ht & Hk).
+      destruct (vec_store (rar dst) s) as [a' [ref|e]] eqn:Est.
+      + pose proof (vec_store_post _ _ _ _ Ha Est) as Hpost.
+        pose proof (push_step_inv _ _ _ _ _ Hinv Hpost Hni Hlt) as Hinv'.
+        pose proof (strs_ok_push _ _ _ _ _ _ Hs Hpost Hni) as (_ & _ & Hc' & _).
+        rewrite (tlookup_fresh _ _ _ _ _ _ Ht Hc' Hni) in Hc.
+        unfold try_key in Hc. apply N.ltb_lt in Hlt. rewrite Hlt in Hc.
+        rewrite <- length_snoc_N with (x := s) in Hc.
+        rewrite app_cons_snoc in Hnd, Hcap.
+        destruct (IH _ _ _ _ Hinv' Hnd Hcap Hc) as (Hlim & Hres).
+        cbn [rar] in Hlim. split; [rewrite Hlim; exact (sp_limit _ _ _ _ Hpost)|].
+        destruct Hres as [(-> & Hr')|(-> & done & rest' & Hsplit & Hrest & Hr')].
+        * left. rewrite app_cons_snoc. auto.
+        * right. split; [reflexivity|]. exists (s :: done), rest'.
+          split; [simpl; now rewrite Hsplit|]. split; [exact Hrest|].
+          rewrite app_cons_snoc. exact Hr'.
+      + pose proof (vec_store_post _ _ _ _ Ha Est) as Hpost.
+        destruct (sp_result _ _ _ _ Hpost) as (He & Haa & Hsne & Hlim). subst e a'.
+        inversion Hc; subst r' c. rewrite rodeo_eta. split; [reflexivity|].
+        right. split; [reflexivity|]. exists [], (s :: rest).
+        split; [reflexivity|]. split; [discriminate|]. rewrite app_nil_r. exact Hinv.
+  Qed.
+
+  (* when everything that is left fits into the last block, no store of the loop can fail
+     (whatever the memory limit), and the arena never grows.  No invariant is needed. *)
+  Lemma clone_into_fits src : forall idx dst b r' c,
+    last_opt (blocks (rar dst)) = Some b -> sum_N (map slen src) <= bcap b - bused b ->
+    clone_into src idx dst = (r', c) ->
+    c <> CErr MemoryLimitReached /\ usage (rar r') = usage (rar dst) /\
+    bucket_cap (rar r') = bucket_cap (rar dst) /\
+    length (blocks (rar r')) = length (blocks (rar dst)).
+  Proof.
+    induction src as [|s rest IH]; intros idx dst b r' c Hl Hfit Hc.
+    - cbn [Rodeo.clone_into] in Hc. inversion Hc; subst r' c.
+      split; [discriminate|]. auto.
+    - cbn [Rodeo.clone_into] in Hc. cbn [map] in Hfit. rewrite sum_N_cons in Hfit.
+      assert (Hfit1 : slen s <= bcap b - bused b) by lia.
+      destruct (vec_store_room _ _ _ Hl Hfit1)
+        as (a' & ref & b' & Hst & Hl' & Hcap' & Hused' & Hus & _ & Hbc & Hlen).
+      rewrite Hst in Hc.
+      destruct (tlookup (rmap dst) (rstrs dst ++ [ref]) a' (hash s) s) as [k0|] eqn:Elk.
+      + inversion Hc; subst r' c. cbn [rar]. split; [discriminate|]. auto.
+      + destruct (try_key keycap idx) as [k|] eqn:Ek.
+        * assert (Hfit2 : sum_N (map slen rest) <= bcap b' - bused b') by lia.
+          destruct (IH _ (mkRodeo (tinsert (rmap dst) (rstrs dst ++ [ref]) a' (hash s) k)
+                                  (rstrs dst ++ [ref]) a') _ _ _ Hl' Hfit2 Hc) as (H1 & H2 & H3 & H4).
+          cbn [rar] in H2, H3, H4.
+          split; [exact H1|]. split; [congruence|]. split; congruence.
+        * inversion Hc; subst r' c. cbn [rar]. split; [discriminate|]. auto.
+  Qed.
+
+  (* every reference the loop pushes points into the arena: a deep copy *)
+  Lemma clone_into_nonstatic src : forall idx dst r' c,
+    ArenaInv (rar dst) -> Forall nonstatic (rstrs dst) -> clone_into src idx dst = (r', c) ->
+    Forall nonstatic (rstrs r').
+  Proof.
+    induction src as [|s rest IH]; intros idx dst r' c Ha Hns Hc.
+    - cbn [Rodeo.clone_into] in Hc. inversion Hc; subst r' c. exact Hns.
+    - cbn [Rodeo.clone_into] in Hc.
+      destruct (vec_store (rar dst) s) as [a' [ref|e]] eqn:Est.
+      + pose proof (vec_store_post _ _ _ _ Ha Est) as Hpost.
+        assert (Hns' : Forall nonstatic (rstrs dst ++ [ref])).
+        { apply Forall_app. split; [exact Hns|]. constructor; [|constructor].
+          eapply vec_store_nonstatic; eauto. }
+        destruct (tlookup (rmap dst) (rstrs dst ++ [ref]) a' (hash s) s) as [k0|] eqn:Elk.
+        * inversion Hc; subst r' c. exact Hns'.
+        * destruct (try_key keycap idx) as [k|] eqn:Ek.
+          -- eapply IH; [| |exact Hc]; cbn [rar rstrs]; [exact (sp_inv _ _ _ _ Hpost)|exact Hns'].
+          -- inversion Hc; subst r' c. exact Hns'.
+      + inversion Hc; subst r' c. exact Hns.
+  Qed.
+
+  (* ---------- 3. try_clone ---------- *)
+
+  Lemma doc_bytes_room l : sum_N (map slen l) <= doc_bytes l /\ 0 < doc_bytes l.
+  Proof.
+    unfold doc_bytes, default_bytes. cbv zeta.
+    destruct (sum_N (map slen l) =? 0) eqn:E.
+    - apply N.eqb_eq in E. lia.
+    - apply N.eqb_neq in E. lia.
+  Qed.
+
+  (* cloning never fails, whatever the source's memory limit; the clone has the same content,
+     holds no reference to a caller's static string, lives in ONE block of exactly the total
+     length of the strings (4096 if that is 0), and its limit is the source's limit raised
+     to that size if necessary *)
+  Theorem r_clone_spec r cs :
+    RodeoInv r cs ->
+    exists r', r_clone r = Some (r', COk) /\ RodeoInv r' cs /\
+               Forall nonstatic (rstrs r') /\
+               usage (rar r') = doc_bytes cs /\
+               length (blocks (rar r')) = 1%nat /\
+               limit (rar r') = N.max (limit (rar r)) (usage (rar r')).
+  Proof.
+    intros Hinv. pose proof Hinv as (Ha & (_ & _ & Hc & Hnd) & _ & Hk).
+    destruct (doc_bytes_room cs) as (Hroom & Hpos).
+    unfold Rodeo.r_clone. rewrite Hc. cbv zeta. fold (doc_bytes cs).
+    set (dst := rodeo_new (doc_bytes cs) (N.max (limit (rar r)) (doc_bytes cs))).
+    destruct (clone_into cs 0 dst) as [r' c] eqn:Ecl.
+    assert (Hdst : RodeoInv dst []) by (apply rodeo_new_inv; exact Hpos).
+    change 0 with (N.of_nat (length (@nil str))) in Ecl.
+    destruct (clone_into_spec _ _ _ _ _ Hdst Hnd Hk Ecl) as (Hlim & Hres).
+    assert (Hlast : last_opt (blocks (rar dst)) = Some (fresh_block 0 (doc_bytes cs))) by reflexivity.
+    assert (Hfit : sum_N (map slen cs) <= bcap (fresh_block 0 (doc_bytes cs)) - bused (fresh_block 0 (doc_bytes cs))).
+    { cbn [bcap bused fresh_block]. lia. }
+    destruct (clone_into_fits _ _ _ _ _ _ Hlast Hfit Ecl) as (Hnm & Hus & _ & Hlen).
+    assert (Hns : Forall nonstatic (rstrs r')).
+    { eapply clone_into_nonstatic; [| |exact Ecl].
+      - destruct Hdst as (H & _); exact H.
+      - constructor. }
+    destruct Hres as [(-> & Hr')|(-> & _)]; [|congruence].
+    exists r'. split; [reflexivity|]. split; [exact Hr'|]. split; [exact Hns|].
+    cbn [dst rodeo_new rar arena_new usage blocks limit length] in Hus, Hlen, Hlim.
+    split; [exact Hus|]. split; [exact Hlen|]. rewrite Hlim, Hus. reflexivity.
+  Qed.
+
+  (* ---------- 4. try_clone_from ---------- *)
+
+  Theorem r_clone_from_spec tgt cs_t src cs :
+    RodeoInv tgt cs_t -> RodeoInv src cs ->
+    exists r' c, r_clone_from tgt src = Some (r', c) /\
+      limit (rar r') = limit (rar tgt) /\
+      ((c = COk /\ RodeoInv r' cs) \/
+       (c = CErr MemoryLimitReached /\
+        exists done rest, cs = done ++ rest /\ rest <> [] /\ RodeoInv r' done)).
+  Proof.
+    intros Ht Hs. pose proof Hs as (_ & (_ & _ & Hc & Hnd) & _ & Hk).
+    unfold Rodeo.r_clone_from. rewrite Hc.
+    destruct (clone_into cs 0 (r_clear tgt)) as [r' c] eqn:Ecl.
+    exists r', c. split; [reflexivity|].
+    pose proof (r_clear_inv hash keycap _ _ Ht) as Hclr.
+    change 0 with (N.of_nat (length (@nil str))) in Ecl.
+    exact (clone_into_spec _ _ _ _ _ Hclr Hnd Hk Ecl).
+  Qed.
+
+  (* ---------- 5. Deserialize for Rodeo / RodeoReader (the repaired loop) ---------- *)
+
+  Lemma de_list_loop_spec l : forall r cs0 b,
+    RodeoInv r cs0 ->
+    last_opt (blocks (rar r)) = Some b -> sum_N (map slen l) <= bcap b - bused b ->
+    match de_list_loop true l (N.of_nat (length cs0)) r with
+    | DOk r' => RodeoInv r' (cs0 ++ l) /\ limit (rar r') = limit (rar r) /\
+                usage (rar r') = usage (rar r) /\
+                length (blocks (rar r')) = length (blocks (rar r))
+    | DErr => ~ NoDup (cs0 ++ l)
+    | DPanic => exists pre post, l = pre ++ post /\ NoDup (cs0 ++ pre) /\
+                                 keycap < N.of_nat (length (cs0 ++ pre))
+    end.
+  Proof.
+    induction l as [|s rest IH]; intros r cs0 b Hinv Hl Hfit.
+    - cbn [Rodeo.de_list_loop]. rewrite app_nil_r. auto.
+    - cbn [Rodeo.de_list_loop]. cbn [map] in Hfit. rewrite sum_N_cons in Hfit.
+      pose proof Hinv as (Ha & Hs & Ht & Hk).
+      pose proof Hs as (_ & _ & Hc & Hnd).
+      assert (Hfit1 : slen s <= bcap b - bused b) by lia.
+      destruct (vec_store_room _ _ _ Hl Hfit1)
+        as (a' & ref & b' & Hst & Hl' & Hcap' & Hused' & Hus & Hlm & _ & Hlen).
+      rewrite Hst. cbv beta iota zeta.
+      pose proof (vec_store_post _ _ _ _ Ha Hst) as Hpost.
+      pose proof (strs_ok_frame _ _ _ _ Hs (sp_frame _ _ _ _ Hpost)) as (_ & _ & Hca' & _).
+      rewrite (tlookup_spec hash cand cand_refl _ _ _ _ s Hca' Hnd Ht).
+      destruct (index_of s cs0) as [i|] eqn:Ei.
+      + (* a repeated string *)
+        intros Hnd'. apply NoDup_app_cons_notin in Hnd'. apply Hnd'.
+        apply index_of_some in Ei as (Hn & _). eapply nth_error_In; eauto.
+      + apply index_of_none in Ei. unfold try_key.
+        destruct (N.of_nat (length cs0) <? keycap) eqn:Ek.
+        * apply N.ltb_lt in Ek. rewrite <- length_snoc_N with (x := s).
+          pose proof (push_step_inv _ _ _ _ _ Hinv Hpost Ei Ek) as Hinv'.
+          assert (Hfit2 : sum_N (map slen rest) <= bcap b' - bused b') by lia.
+          pose proof (IH (mkRodeo (tinsert (rmap r) (rstrs r ++ [ref]) a' (hash s) (N.of_nat (length cs0)))
+                                  (rstrs r ++ [ref]) a') (cs0 ++ [s]) b' Hinv' Hl' Hfit2) as IH'.
+          clear IH. cbn [rar] in IH'. revert IH'.
+          match goal with |- match ?X with _ => _ end -> _ => destruct X as [r'| |] end.
+          -- intros (H1 & H2 & H3 & H4). rewrite app_cons_snoc.
+             split; [exact H1|]. split; [congruence|]. split; congruence.
+          -- intros H1. rewrite app_cons_snoc. exact H1.
+          -- intros (pre & post & H1 & H2 & H3). exists (s :: pre), post.
+             split; [simpl; now rewrite H1|]. rewrite app_cons_snoc. auto.
+        * apply N.ltb_ge in Ek. exists [s], rest. split; [reflexivity|].
+          split; [apply NoDup_app_snoc; auto|]. rewrite length_snoc_N. lia.
+  Qed.
+
+  (* The repaired deserialiser, for every input list (no size hypothesis is needed: the
+     first block has exactly the total size, so no store ever consults the limit).
+     - success: the object satisfies the invariant with the document as its content
+       (in particular every string resolves and keys are positions), one block;
+     - a repeated string is always reported as an error, never skipped;
+     - the only panic is running out of keys on a repeat-free prefix. *)
+  Theorem de_rodeo_spec l :
+    match de_rodeo l with
+    | DOk r => RodeoInv r l /\ NoDup l /\ limit (rar r) = usize_max /\
+               usage (rar r) = doc_bytes l /\ length (blocks (rar r)) = 1%nat
+    | DErr => ~ NoDup l
+    | DPanic => exists pre post, l = pre ++ post /\ NoDup pre /\ keycap < N.of_nat (length pre)
+    end.
+  Proof.
+    destruct (doc_bytes_room l) as (Hroom & Hpos).
+    assert (Hinv : RodeoInv (rodeo_new (doc_bytes l) usize_max) []) by (apply rodeo_new_inv; exact Hpos).
+    assert (Hfit : sum_N (map slen l) <= bcap (fresh_block 0 (doc_bytes l)) - bused (fresh_block 0 (doc_bytes l))).
+    { cbn [bcap bused fresh_block]. lia. }
+    pose proof (de_list_loop_spec l _ [] _ Hinv eq_refl Hfit) as H.
+    change (N.of_nat (length (@nil str))) with 0 in H. cbn [app] in H.
+    unfold Rodeo.de_rodeo, de_rodeo_gen. revert H.
+    match goal with |- match ?X with _ => _ end -> _ => destruct X as [r'| |] end.
+    - intros (H1 & H2 & H3 & H4). split; [exact H1|].
+      split; [destruct H1 as (_ & (_ & _ & _ & Hnd) & _); exact Hnd|].
+      cbn [rodeo_new rar arena_new usage blocks limit length] in H2, H3, H4. auto.
+    - auto.
+    - auto.
+  Qed.
+
+  Corollary de_rodeo_panic_keys l : de_rodeo l = DPanic -> keycap < N.of_nat (length l).
+  Proof.
+    intros H. pose proof (de_rodeo_spec l) as Hs. rewrite H in Hs.
+    destruct Hs as (pre & post & -> & _ & Hlt). rewrite app_length. lia.
+  Qed.
+
+  (* completeness: a repeat-free document within the key space always loads *)
+  Corollary de_rodeo_complete l :
+    NoDup l -> N.of_nat (length l) <= keycap ->
+    exists r, de_rodeo l = DOk r /\ RodeoInv r l.
+  Proof.
+    intros Hnd Hk. pose proof (de_rodeo_spec l) as Hs.
+    destruct (de_rodeo l) as [r| |].
+    - exists r. split; [reflexivity|]. destruct Hs as (H & _); exact H.
+    - contradiction.
+    - destruct Hs as (pre & post & -> & _ & Hlt). rewrite app_length in Hk. lia.
+  Qed.
+
+  (* a consequence of the invariant that the unrepaired loop violates: every key filed in
+     the map is a position of the string table *)
+  Lemma RodeoInv_keys_in_range r cs :
+    RodeoInv r cs -> Forall (fun e => snd e < N.of_nat (length (rstrs r))) (rmap r).
+  Proof.
+    intros (_ & (_ & _ & Hc & _) & (_ & Hfiled & _) & _).
+    rewrite Forall_forall. intros (h & k) Hin. cbn [snd].
+    destruct (Hfiled _ _ Hin) as (s & Hs & _).
+    assert (N.to_nat k < length cs)%nat by (apply nth_error_Some; congruence).
+    rewrite <- (contents_length _ _ _ Hc). lia.
+  Qed.
+End Proofs.
+
+(* The unrepaired Deserialize (a repeated string is skipped but the position counter still
+   advances): for ["a","a","b"] it returns an object whose map files key 2 while the string
+   table has 2 entries — resolving / looking up through that entry reads out of bounds. *)
+Example de_rodeo_legacy_refuted :
+  match Rodeo.de_rodeo_legacy (fun _ => 0) (fun _ _ => true) (fun _ => false) 4294967295
+                              [[97];[97];[98]] with
+  | DOk r => existsb (fun e => N.of_nat (length (rstrs r)) <=? snd e) (rmap r)
+  | _ => false
+  end = true.
+Proof. vm_compute. reflexivity. Qed.
+
+Example de_rodeo_legacy_no_inv :
+  exists l r,
+    Rodeo.de_rodeo_legacy (fun _ => 0) (fun _ _ => true) (fun _ => false) 4294967295 l = DOk r /\
+    ~ exists cs, RodeoInv.RodeoInv (fun _ => 0) 4294967295 r cs.
+Proof.
+  exists [[97];[97];[98]].
+  pose proof de_rodeo_legacy_refuted as H.
+  destruct (Rodeo.de_rodeo_legacy (fun _ => 0) (fun _ _ => true) (fun _ => false) 4294967295
+                                  [[97];[97];[98]]) as [r| |]; try discriminate.
+  exists r. split; [reflexivity|]. intros (cs & Hinv).
+  apply existsb_exists in H as (e & Hin & Hle). apply N.leb_le in Hle.
+  pose proof (RodeoInv_keys_in_range _ _ _ _ Hinv) as HF. rewrite Forall_forall in HF.
+  apply HF in Hin. lia.
+Qed.
+
+(* the repaired one rejects the same document *)
+Example de_rodeo_repaired_rejects :
+  Rodeo.de_rodeo (fun _ => 0) (fun _ _ => true) (fun _ => false) 4294967295
+                 [[97];[97];[98]] = DErr.
+Proof. vm_compute. reflexivity. Qed.
+
+(* ---------- 6. Deserialize for RodeoResolver ---------- *)
+
+(* a string table without the "pairwise different" clause (a resolver may hold repeats) *)
+Definition strs_wf (strs : list sref) (a : arena) (cs : list str) : Prop :=
+  Forall (ref_ok a) strs /\ ForallOrdPairs refs_disjoint strs /\ contents strs a = Some cs.
+
+Lemma strs_wf_push strs a a' cs s ref :
+  strs_wf strs a cs -> store_post a a' s (Ok ref) -> strs_wf (strs ++ [ref]) a' (cs ++ [s]).
+Proof.
+  intros (Hrefs & Hdis & Hc) Hpost. destruct Hpost as [_ _ _ Hframe Hres].
+  destruct Hres as (Hrok & Hrd & Hdj & _ & _).
+  rewrite Forall_forall in Hrefs.
+  split; [|split].
+  - apply Forall_app. split.
+    + rewrite Forall_forall. intros r Hr. now apply Hframe, Hrefs.
+    + constructor; auto.
+  - clear Hc. induction Hdis as [|r l Hr Hl IH]; simpl.
+    + constructor; constructor.
+    + constructor.
+      * apply Forall_app. split; auto. constructor; auto. apply Hdj. apply Hrefs. now left.
+      * apply IH. intros x Hx. apply Hrefs. now right.
+  - unfold contents in *. rewrite map_app, all_some_app. simpl.
+    rewrite (all_some_ext (read a') (read a)).
+    + rewrite Hc, Hrd. reflexivity.
+    + intros r Hr. now apply Hframe, Hrefs.
+Qed.
+
+Lemma de_resolver_loop_spec l : forall strs a cs0 b,
+  ArenaInv a -> strs_wf strs a cs0 ->
+  last_opt (blocks a) = Some b -> sum_N (map slen l) <= bcap b - bused b ->
+  exists strs' a',
+    de_resolver_loop l strs a = DOk (strs', a') /\ ArenaInv a' /\ strs_wf strs' a' (cs0 ++ l) /\
+    limit a' = limit a /\ usage a' = usage a /\ length (blocks a') = length (blocks a).
+Proof.
+  induction l as [|s rest IH]; intros strs a cs0 b Ha Hwf Hl Hfit.
+  - exists strs, a. cbn [de_resolver_loop]. rewrite app_nil_r. auto 10.
+  - cbn [de_resolver_loop]. cbn [map] in Hfit. rewrite sum_N_cons in Hfit.
+    assert (Hfit1 : slen s <= bcap b - bused b) by lia.
+    destruct (vec_store_room _ _ _ Hl Hfit1)
+      as (a' & ref & b' & Hst & Hl' & Hcap' & Hused' & Hus & Hlm & _ & Hlen).
+    rewrite Hst.
+    pose proof (vec_store_post _ _ _ _ Ha Hst) as Hpost.
+    pose proof (strs_wf_push _ _ _ _ _ _ Hwf Hpost) as Hwf'.
+    assert (Hfit2 : sum_N (map slen rest) <= bcap b' - bused b') by lia.
+    destruct (IH _ _ _ _ (sp_inv _ _ _ _ Hpost) Hwf' Hl' Hfit2)
+      as (strs' & a'' & H1 & H2 & H3 & H4 & H5 & H6).
+    exists strs', a''. split; [exact H1|]. split; [exact H2|].
+    split; [rewrite app_cons_snoc; exact H3|].
+    split; [congruence|]. split; congruence.
+Qed.
+
+(* For every document: the resolver loads (never an error, never a panic), into one block,
+   and resolves position i to the i-th string of the document. *)
+Theorem de_resolver_spec l :
+  exists strs a,
+    de_resolver l = DOk (strs, a) /\ ArenaInv a /\ Forall (ref_ok a) strs /\
+    ForallOrdPairs refs_disjoint strs /\ contents strs a = Some l /\
+    limit a = usize_max /\ usage a = doc_bytes l /\ length (blocks a) = 1%nat.
+Proof.
+  destruct (doc_bytes_room l) as (Hroom & Hpos).
+  assert (Ha : ArenaInv (arena_new (doc_bytes l) usize_max)) by (apply arena_new_inv; exact Hpos).
+  assert (Hwf : strs_wf [] (arena_new (doc_bytes l) usize_max) []).
+  { split; [constructor|]. split; [constructor|reflexivity]. }
+  assert (Hfit : sum_N (map slen l) <= bcap (fresh_block 0 (doc_bytes l)) - bused (fresh_block 0 (doc_bytes l))).
+  { cbn [bcap bused fresh_block]. lia. }
+  destruct (de_resolver_loop_spec l _ _ _ _ Ha Hwf eq_refl Hfit)
+    as (strs & a & H1 & H2 & (H3 & H4 & H5) & H6 & H7 & H8).
+  exists strs, a. unfold de_resolver. cbn [app] in H5.
+  cbn [arena_new usage blocks limit length] in H6, H7, H8. auto 10.
+Qed.
+
+Print Assumptions vec_store_fits.
+Print Assumptions clone_into_spec.
+Print Assumptions r_clone_spec.
+Print Assumptions r_clone_from_spec.
+Print Assumptions de_rodeo_spec.
+Print Assumptions de_rodeo_complete.
+Print Assumptions de_rodeo_legacy_no_inv.
+Print Assumptions de_resolver_spec.
